@@ -451,6 +451,8 @@ class AngularGrid(Grid):
                 cache_dict[degree] = points, weights
         else:
             points, weights = cache_dict[degree]
+        # the cache keeps its own arrays: instances get copies, so editing a grid cannot change later grids
+        points, weights = points.copy(), weights.copy()
         self._degree = degree
         # Multiply weights by 4 pi, so that the spherical harmonics are orthonormal,
         #   etc. \int Y_l1 Y_l2 = \delta_{l1, l2}
